@@ -76,4 +76,5 @@ theorem text_SessionManager_getTokenChunkSessions_ok : Oidc.Shapes.Text_SessionM
 theorem text_SessionData_GetAccessToken_ok : Oidc.Shapes.Text_SessionData_GetAccessToken := by unfold Oidc.Shapes.Text_SessionData_GetAccessToken; rfl
 theorem text_SessionData_GetAuthenticated_ok : Oidc.Shapes.Text_SessionData_GetAuthenticated := by unfold Oidc.Shapes.Text_SessionData_GetAuthenticated; rfl
 
+theorem shape_ServeHTTP_ok : Oidc.Shapes.Shape_ServeHTTP := by unfold Oidc.Shapes.Shape_ServeHTTP; rfl
 end Oidc.Props.C04
